@@ -97,7 +97,16 @@ type duty struct {
 func history(c *harness.Ctx, id string, r *rand.Rand) {
 	ctx := context.Background()
 	spe := uint64(8)
+	cas := uint64(3) // committees per slot
 	epoch := uint64(3 + r.Intn(3))
+	r0 := rand.New(rand.NewSource(r.Int63()))
+	switch r0.Intn(5) {
+	case 0:
+		// a full-size epoch: more (slot, committee) pairs than attestation subnets, so that pairs share subnets
+		spe, cas = 32, uint64([]int{4, 8}[r0.Intn(2)])
+	case 1:
+		epoch = 0 // the chain's first epochs
+	}
 	nVal := 3 + r.Intn(6)
 	vals := make([]uint64, nVal)
 	accts := map[uint64]harness.Acct{}
@@ -162,7 +171,7 @@ func history(c *harness.Ctx, id string, r *rand.Rand) {
 	for e, ds := range script {
 		for _, d := range ds {
 			env.Duties.Attester[e] = append(env.Duties.Attester[e], &apiv1.AttesterDuty{Slot: phase0.Slot(d.Slot), ValidatorIndex: phase0.ValidatorIndex(d.V), CommitteeIndex: phase0.CommitteeIndex(d.Committee),
-				CommitteeLength: d.Size, CommitteesAtSlot: 3, ValidatorCommitteeIndex: d.Pos})
+				CommitteeLength: d.Size, CommitteesAtSlot: cas, ValidatorCommitteeIndex: d.Pos})
 		}
 	}
 	// attestation data root per (slot, committee) as the (fake) attester reports it
@@ -285,6 +294,9 @@ func history(c *harness.Ctx, id string, r *rand.Rand) {
 		}
 		// a reorg in the second epoch: first an event that only records the roots, later one whose previous
 		// dependent root differs, delivered at a duty slot before that slot's attestation has run
+		if s/spe == epoch {
+			env.HeadEvent(s, 7, 1) // the node's head event of every slot of the first epoch (roots unchanged)
+		}
 		if s == (epoch+1)*spe {
 			env.HeadEvent(s, 1, 2)
 		}
@@ -301,7 +313,7 @@ func history(c *harness.Ctx, id string, r *rand.Rand) {
 			env.Duties.Attester[epoch+1] = nil
 			for _, d := range fresh {
 				env.Duties.Attester[epoch+1] = append(env.Duties.Attester[epoch+1], &apiv1.AttesterDuty{Slot: phase0.Slot(d.Slot), ValidatorIndex: phase0.ValidatorIndex(d.V), CommitteeIndex: phase0.CommitteeIndex(d.Committee),
-					CommitteeLength: d.Size, CommitteesAtSlot: 3, ValidatorCommitteeIndex: d.Pos})
+					CommitteeLength: d.Size, CommitteesAtSlot: cas, ValidatorCommitteeIndex: d.Pos})
 			}
 			subs.mu.Lock()
 			from := len(subs.subs)
